@@ -320,7 +320,7 @@ Definition src2_artifact2destination (b64decode : pyval -> pyval) (int_base : py
    | BErr => PErr
    end))))).
 
-(* saml2/mdstore.py:MetadataStore.construct_source_id, lines 1756-1760 *)
+(* saml2/mdstore.py:MetadataStore.construct_source_id, lines 1757-1761 *)
 Definition src2_store_construct_source_id (md_csi : pyval -> pyval) (v_self : pyval) : pyval :=
   let v_res := PErr in
   (let v_res := (PObj []) in
